@@ -65,10 +65,6 @@ def solve_knapsack(
     # Convert to integer capacity for DP (scale if needed)
     int_capacity, scale = _to_int_capacity(capacity, weights)
 
-    if int_capacity == 0:
-        # No capacity, can't take anything
-        return Result((), 0.0, 0, n, Status.OPTIMAL)
-
     # Scale weights
     int_weights = [max(1, int(w * scale)) if w > 0 else 0 for w in weights]
 
